@@ -119,7 +119,12 @@ func (s Segment) Recover(params index.Params) error {
 	}
 	defer func() { _ = log.Close() }()
 
-	restore, err := message.OpenWriter(s.Log+".recover", s.Offset, log.Version())
+	restorePath := s.Log + ".recover"
+	if err := os.Remove(restorePath); err != nil && !errors.Is(err, os.ErrNotExist) {
+		// left behind by a recover that did not complete, would be appended to
+		return fmt.Errorf("restore remove stale temp: %w", err)
+	}
+	restore, err := message.OpenWriter(restorePath, s.Offset, log.Version())
 	if err != nil {
 		return err
 	}
